@@ -189,6 +189,8 @@ func main() {
 		runArithCmd(os.Args[2:])
 	case "chain":
 		runChainCmd(os.Args[2:])
+	case "ante":
+		runAnteCmd(os.Args[2:])
 	case "inventory":
 		runInventoryCmd(os.Args[2:])
 	default:
